@@ -735,6 +735,36 @@ type monitor struct {
 // explain looks for the reason of a failed verification by re-verifying over variants of what the upstream
 // received. ok(view, sep, dropQuery) re-runs the verification. Only a variant that VERIFIES names a cause.
 func explain(v view, hit sut.Hit, ax *aux, twin *sut.Hit, ok func(view, string, bool) bool) string {
+	// Content-Length as the client sent it instead of as the upstream received it
+	hitCL := strings.Join(v.Header["Content-Length"], ",")
+	clCause := ""
+	switch {
+	case ax.clientCL == hitCL:
+	case ax.clientCL == "":
+		clCause = "content-length-added-by-transport"
+	case hitCL == "":
+		clCause = "content-length-dropped-by-transport"
+	default:
+		clCause = "non-canonical-content-length"
+	}
+	withClientCL := func(base view) bool {
+		if clCause == "" {
+			return false
+		}
+		t := base.clone()
+		if ax.clientCL == "" {
+			delete(t.Header, "Content-Length")
+			return ok(t, ",", false)
+		}
+		t.Header["Content-Length"] = []string{ax.clientCL}
+		if ok(t, ",", false) {
+			return true
+		}
+		// the client's header in canonical decimal form
+		t.Header["Content-Length"] = []string{strconv.Itoa(len(ax.body))}
+		return ok(t, ",", false)
+	}
+	// headers the client declared hop-by-hop, restored from the twin request
 	if twin != nil && len(ax.protTokens) > 0 {
 		t := v.clone()
 		for _, name := range ax.protTokens {
@@ -744,28 +774,12 @@ func explain(v view, hit sut.Hit, ax *aux, twin *sut.Hit, ok func(view, string, 
 				delete(t.Header, name)
 			}
 		}
-		if ok(t, ",", false) {
+		if ok(t, ",", false) || withClientCL(t) {
 			return "connection-token"
 		}
 	}
-	hitCL := strings.Join(v.Header["Content-Length"], ",")
-	if ax.clientCL != hitCL {
-		t := v.clone()
-		if ax.clientCL == "" {
-			delete(t.Header, "Content-Length")
-		} else {
-			t.Header["Content-Length"] = []string{ax.clientCL}
-		}
-		if ok(t, ",", false) {
-			switch {
-			case ax.clientCL == "":
-				return "content-length-added-by-transport"
-			case hitCL == "":
-				return "content-length-dropped-by-transport"
-			default:
-				return "non-canonical-content-length"
-			}
-		}
+	if withClientCL(v) {
+		return clCause
 	}
 	// diagnosis only (names which part of the signed form differs from the received one)
 	type variant struct {
